@@ -102,4 +102,27 @@ PROPS = {
   "assumptions": ["faults are injected at system-call granularity only", "silent corruption of written bytes is not injected (would need an LD_PRELOAD shim): the verifying modes are covered by the exit-status theorem and constants only",
                   "faults in read-only calls during planning are judged by the oracle only (the fault-plan model speaks about task execution)"],
  },
+ "C11": {
+  "seed": 11,
+  "streams": [{"kind": "rust", "name": "c11", "replayable": True}],
+  "trusted_base": [
+    "hand-written Lean model of src/bisync/{classifier,resolver,engine,state}.rs (both the tree as shipped, Cfg.pinned, and the tree with fix-bisync-state / fix-bisync-content-equal, Cfg.repaired), tied to the code by the stream c11: exhaustive in-process differential of classify_changes / resolve_changes / conflict_filename on fabricated metadata, and histories of edits and syncs on two real directories through BisyncEngine::sync and through the real `sy -b` binary (both roots and the rows of the state database compared after every sync); the stream detects which variant is linked and compares with that variant of the model",
+    "kernel semantics assumed by the model: fs::copy gives the destination the source's bytes and a fresh mtime; rename replaces its target; remove_file removes one name; SQLite INSERT OR REPLACE / DELETE on the (path, side) key",
+    "time: mtimes are compared exactly in nanoseconds and only by order; the harness realises the logical clock with 1 ns, 1 µs and 1 s ticks and re-stamps every kernel-stamped mtime (copy destinations, rows) with the sync's tick",
+    "regular files only (directories are skipped by the classifier; symlinks, permissions and xattrs are outside the bisync code)",
+  ],
+  "assumptions": ["Consistent w (rows in pairs; files that both still match their rows agree) — proved to hold after every sync (sync_consistent) and along every history (C12 paired_state)",
+                  "Fresh w stamp (the conflict names of this wall-clock second name nothing that exists)",
+                  "the run is not refused by --max-delete (refused runs change nothing: refused_changes_nothing)"],
+ },
+ "C12": {
+  "seed": 12,
+  "streams": [{"kind": "rust", "name": "c12", "replayable": True}],
+  "trusted_base": [
+    "the model and correspondence of C11 (same files, stream c12 judges the same runs with the three-way-merge oracle)",
+    "histories start from two arbitrary trees with an empty state database; every write stamps mtime := logical now (strictly increasing), i.e. the clock of the machine never runs backwards between an edit and the next sync",
+    "a touched side counts as changed (the code's is_modified and the model's changedL/changedR agree; content-only reading is reported as an observation tag, see Props/C12.lean)",
+  ],
+  "assumptions": ["Trace.Init (empty state database, mtimes in the past)", "FreshRun (every sync of the history meets a fresh conflict stamp)", "the judged sync is not refused by --max-delete"],
+ },
 }
